@@ -417,7 +417,7 @@ pub fn run_rfaults(sink: &mut Sink, thorough: bool, seed: u64) {
 // ---------------------------------------------------------------- C14: depth accounting of every container kind
 
 /// one layer of a depth tower around `inner`: (schema, text before, text after, containers it opens)
-fn layer(kind: usize, inner: Schema) -> (Schema, &'static str, &'static str, usize) {
+pub(crate) fn layer(kind: usize, inner: Schema) -> (Schema, &'static str, &'static str, usize) {
     match kind {
         0 => (Schema::Seq(Box::new(inner)), "[", "]", 1),
         1 => (Schema::Tuple(vec![inner]), " [ ", "]", 1),
@@ -433,7 +433,7 @@ fn layer(kind: usize, inner: Schema) -> (Schema, &'static str, &'static str, usi
 }
 
 /// `n` layers (kind 10 = the kinds in rotation) around a leaf: schema, text, containers opened by the layers
-fn tower(kind: usize, n: usize, leaf: &Schema, leaf_text: &str) -> (Schema, String, usize) {
+pub(crate) fn tower(kind: usize, n: usize, leaf: &Schema, leaf_text: &str) -> (Schema, String, usize) {
     let mut s = leaf.clone(); let mut pre: Vec<&str> = vec![]; let mut post: Vec<&str> = vec![]; let mut levels = 0;
     for i in (0..n).rev() {
         let k = if kind == 10 { i % 10 } else { kind };
